@@ -201,6 +201,7 @@ def run(chk: Check) -> None:
     old = signal.signal(signal.SIGALRM, _alarm)
     inputs_seen: set[tuple[str, bytes]] = set()
     n_nontrivial = 0
+    nhangs = 0
     try:
         for e in ents:
             valid_stream = b""
@@ -224,17 +225,25 @@ def run(chk: Check) -> None:
                 if key in inputs_seen:
                     continue
                 inputs_seen.add(key)
-                signal.setitimer(signal.ITIMER_REAL, 20)
+                if nhangs >= 6:
+                    break  # the verdict is there: no need to sit out the watchdog on every further input
                 try:
+                    # (the watchdog is one-shot: armed again before every parse run, a run that hangs has used it up)
+                    signal.setitimer(signal.ITIMER_REAL, 20)
                     k = _oneshot(e, data)
                     evs = [{"ev": "oneshot", "n": len(data), "k": k, "r": 0}]
                     if k == "err":
                         n_nontrivial += 1
+                    nhangs += k == "hang"
                     rec.append({"events": evs, "meta": f"{e.name} one-shot input={data[:50]!r}... len={len(data)}"})
                     if e.incremental:
+                        signal.setitimer(signal.ITIMER_REAL, 20)
                         rec.append({"events": _incremental(e, data, False, rng), "meta": f"{e.name} incremental input={data[:50]!r}... len={len(data)}"})
+                        nhangs += any(x["k"] == "hang" for x in rec[-1]["events"])
                         if e.buffered:
+                            signal.setitimer(signal.ITIMER_REAL, 20)
                             rec.append({"events": _incremental(e, data, True, rng), "meta": f"{e.name} buffered input={data[:50]!r}... len={len(data)}"})
+                            nhangs += any(x["k"] == "hang" for x in rec[-1]["events"])
                 finally:
                     signal.setitimer(signal.ITIMER_REAL, 0)
     finally:
